@@ -1,6 +1,6 @@
 SPECIFICATION Spec
 CONSTANTS
   SepInRmdir = TRUE
-  RmdirOnlyForFile = FALSE
-INVARIANTS N1 N1fs N2 N4 N6
+  RmdirOnlyForFile = TRUE
+INVARIANTS N1fs
 CHECK_DEADLOCK FALSE
